@@ -772,6 +772,18 @@ FAMILY_GEN = {
 }
 
 
+FAMILY_OPS = {
+    "id": ["id"],
+    "elementwise": ELEMENTWISE_BIN + ELEMENTWISE_NARY + ["where"],
+    "reduce": REDUCE,
+    "dot": ["dot"],
+    "get_at": ["get_at"],
+    "update": UPDATE,
+    "preserve": PRESERVE,
+    "argfind": ARGFIND,
+}
+FAMILY_WEIGHTS = ["id"] * 3 + ["elementwise"] * 3 + ["reduce"] * 3 + ["dot"] * 3 + ["get_at"] * 2 + ["update"] * 2 + ["preserve"] * 2 + ["argfind"] * 1
+
 MAX_ELEMS = 600
 
 
@@ -799,8 +811,13 @@ def _loop_size(env, ins, outs):
 @st.composite
 def call_case(draw, ops=None, backends=None, quick=True):
     ctx = Ctx(draw, quick)
-    op = draw(st.sampled_from(ops or ALL_OPS))
-    fam = family_of(op)
+    if ops is None:
+        # stratify by family first so that structurally rich families are not drowned by the 18 scalar ops
+        fam = draw(st.sampled_from(FAMILY_WEIGHTS))
+        op = draw(st.sampled_from(FAMILY_OPS[fam]))
+    else:
+        op = draw(st.sampled_from(ops))
+        fam = family_of(op)
     ins, outs, meta = FAMILY_GEN[fam](ctx, op)
     env = ctx.env
     # keep the reference evaluation cheap: shrink lengths until the loop nest is small
